@@ -78,7 +78,7 @@ def run_shard(spec, acc):
         acc.sample({"modules": SMALL[0], "aliases": {"r.a": "AL0"}, "expected_labels": {"r": "r", "r.a": "AL0", "r.ab": "r.ab", "r.a.x": "AL0.x"}})
         return
     for i in range(spec["n"]):
-        mods = random_tree(rnd, 4, 12, root=rnd.choice(["r", "a", "u", "b", "ab"]), names=["a", "ab", "a_b", "aa", "a0", "ba", "b", "x", "util", "u1", "a·b", "a\u093f", "\u00fcber"])
+        mods = random_tree(rnd, 4, 12, root=rnd.choice(["r", "a", "u", "b", "ab"]), names=["a", "ab", "a_b", "aa", "a0", "ba", "b", "x", "util", "u1", "a·b", "a\u093f", "\u00fcber", "a-b", "a+", "c", "c++", "a(b"])
         imps = random_imports(rnd, mods, k_max=5)
         ev = build(mods, imps)
         k = rnd.randint(0, min(4, len(mods)))
